@@ -1,3 +1,4 @@
+#![allow(dead_code)]
 //! Shared helpers: PRNG, JSON-lines output, Gallina term printers.
 use serde_json::{json, Value};
 use std::io::Write;
